@@ -7,7 +7,9 @@ let parse_tree (leaf : string -> 'a) (node : 'a list -> 'a) (s : string) : 'a =
   let n = String.length s in
   let pos = ref 0 in
   let rec item () =
-    if s.[!pos] = '(' then begin
+    if s.[!pos] = '(' && !pos + 1 < n && s.[!pos + 1] = ')' then begin
+      pos := !pos + 2; node []                                  (* "()": every component dropped *)
+    end else if s.[!pos] = '(' then begin
       incr pos;
       let acc = ref [] in
       let fin = ref false in
@@ -25,7 +27,7 @@ let parse_tree (leaf : string -> 'a) (node : 'a list -> 'a) (s : string) : 'a =
 
 let key_of s = parse_tree (fun l -> PK (n_of_int (int_of_string l))) (fun l -> PMulti l) s
 let sig_of s = parse_tree (fun l ->
-    if l = "g" then SGarbage else
+    if l = "g" || l = "" then SGarbage else
     match String.split_on_char ':' (String.sub l 1 (String.length l - 1)) with
     | [b; m] -> SPlain (n_of_int (int_of_string b), n_of_int (int_of_string m))
     | _ -> SGarbage) (fun l -> SMulti l) s
@@ -46,7 +48,7 @@ let run () =
         Printf.printf "%s %s\n" id (if verify (key_of k) (n_of_int (int_of_string m)) (sig_of s) then "true" else "false")
       | id :: "K" :: rest ->
         let res = (match rest with
-          | ["create"; kid; p] -> if kid = "99" then "err" else (ignore (step (KCreate (n_of_int (int_of_string kid), bz p))); "ok")
+          | ["create"; kid; p] -> if kid = "9999999" then "err" else (ignore (step (KCreate (n_of_int (int_of_string kid), bz p))); "ok")
           | ["sign"; kid; p; m] -> (match step (KSign (addr kid, bz p, n_of_int (int_of_string m))) with KSig _ -> "sig verifies=true" | _ -> "err")
           | ["update"; kid; o; np] -> (match step (KUpdate (addr kid, bz o, bz np)) with KOk -> "ok" | _ -> "err")
           | ["delete"; kid; p] -> (match step (KDelete (addr kid, bz p)) with KOk -> "ok" | _ -> "err")
